@@ -26,6 +26,7 @@ import (
 	"go/constant"
 	"go/token"
 	"go/types"
+	"regexp"
 	"sort"
 	"strings"
 )
@@ -67,6 +68,11 @@ var funcSpecs = []funcSpec{
 	{rel: "internal/stream", name: "incNonce"},
 	{rel: "internal/stream", name: "setLastChunkFlag"},
 	{rel: "internal/stream", name: "nonceIsZero"},
+	{rel: "internal/stream", name: "(*Reader).readChunk", opaque: streamOpaque, allowWrap: true},
+	{rel: "internal/stream", name: "(*Reader).Read", opaque: streamOpaque, allowWrap: true},
+	{rel: "internal/stream", name: "(*Writer).flushChunk", opaque: streamOpaque},
+	{rel: "internal/stream", name: "(*Writer).Write", opaque: streamOpaque, fuel: map[int]string{1: "2 * (Go.len p).toNat + 2"}},
+	{rel: "internal/stream", name: "(*Writer).Close", opaque: streamOpaque},
 	{rel: "internal/format", name: "isValidString"},
 	{rel: "internal/format", name: "splitArgs"},
 	{rel: "plugin", name: "validPluginName"},
@@ -87,6 +93,9 @@ var funcSpecs = []funcSpec{
 	{rel: "", name: "ParseIdentities", abstract: []string{"age.ParseX25519Identity"}, opaque: map[string]string{"Identity": "κ", "X25519Identity": "κ"}, errInts: true},
 	{rel: "", name: "ParseRecipients", abstract: []string{"age.ParseX25519Recipient"}, opaque: map[string]string{"Recipient": "κ", "X25519Recipient": "κ"}, errInts: true},
 }
+
+// internal/stream: the AEAD and the destination are abstract state, the source is a Go.Src
+var streamOpaque = map[string]string{"cipher.AEAD": "α", "io.Writer": "δ", "io.Reader": "Go.Src"}
 
 // curOpaque: the opaque-type table of the function being translated; curFtr: the translation in progress
 var curOpaque map[string]string
@@ -117,10 +126,11 @@ type ftr struct {
 	busy      map[*types.Func]bool
 	out       strings.Builder // finished definitions, dependency order
 	globs     map[types.Object]string
-	names     []string                      // Lean names of translated functions, for facts.json
-	absOf     map[*types.Func][]*types.Func // abstract callees of each translated function (they are its leading parameters)
-	structs   map[*types.Named]string       // struct types emitted as Lean structures
-	recvInout map[*types.Func]bool          // translated methods whose receiver is handed back as the last result
+	names     []string                   // Lean names of translated functions, for facts.json
+	absOf     map[*types.Func][]absParam // abstract callees of each translated function (they are its leading parameters)
+	arrInout  map[*types.Func]bool       // translated functions whose *[N]T parameter is handed back
+	structs   map[*types.Named]string    // struct types emitted as Lean structures
+	recvInout map[*types.Func]bool       // translated methods whose receiver is handed back as the last result
 }
 
 // per-function state
@@ -142,10 +152,18 @@ type fctx struct {
 	sites   []string     // comments describing error/panic sites
 	// loop context (nil at function level)
 	lc           *loopCtx
-	abstractUsed []*types.Func
+	abstractUsed []absParam
+	localViews   map[*types.Var]*view
+	curE         *emitter
+	curInd       int
 	deferred     []ast.Stmt // bodies of `defer func() { … }()` statements passed so far (function level only)
 	stopped      bool       // funcSpec.stopAt was reached: the remaining statements are not translated
 }
+
+// absParam: a callee that stays abstract = a leading parameter of the translated definition
+type absParam struct{ name, sig string }
+
+const absSigMark, absArgMark = "⟦ABSSIG:", "⟦ABSARGS:"
 
 type loopCtx struct {
 	scanVar  *types.Var // `for scanner.Scan()`: the scanner whose current token is tok__
@@ -208,6 +226,9 @@ func leanTypeOf(t types.Type) (string, bool) {
 			bt = p.Elem()
 		}
 		if nt, ok := bt.(*types.Named); ok && nt.Obj().Pkg() != nil {
+			if v, ok := curOpaque[nt.Obj().Pkg().Name()+"."+nt.Obj().Name()]; ok {
+				return v, true
+			}
 			if v, ok := curOpaque[nt.Obj().Name()]; ok {
 				return v, true
 			}
@@ -526,6 +547,14 @@ func (c *fctx) expr(e ast.Expr) string {
 	if tv, ok := c.info().Types[e]; ok && tv.Value != nil {
 		return c.constant(e, tv)
 	}
+	switch e.(type) {
+	case *ast.Ident, *ast.SelectorExpr, *ast.SliceExpr:
+		if _, isSlice := c.typeOf(e).Underlying().(*types.Slice); isSlice {
+			if v, ok := c.viewOf(e); ok {
+				return v.value()
+			}
+		}
+	}
 	switch x := e.(type) {
 	case *ast.ParenExpr:
 		return c.expr(x.X)
@@ -615,6 +644,16 @@ func (c *fctx) expr(e ast.Expr) string {
 		}
 		return lit
 	case *ast.SelectorExpr:
+		if id, ok := x.X.(*ast.Ident); ok {
+			if pn, ok := c.info().Uses[id].(*types.PkgName); ok && pn.Imported().Path() == "io" {
+				switch x.Sel.Name {
+				case "EOF":
+					return "Go.io_EOF"
+				case "ErrUnexpectedEOF":
+					return "Go.io_ErrUnexpectedEOF"
+				}
+			}
+		}
 		if sel := c.info().Selections[x]; sel != nil {
 			switch sel.Kind() {
 			case types.FieldVal:
@@ -628,8 +667,8 @@ func (c *fctx) expr(e ast.Expr) string {
 						name := c.t.translate(fi, c, x)
 						parts := []string{name}
 						for _, a := range c.t.absOf[m] {
-							c.useAbstract(a)
-							parts = append(parts, absName(a))
+							c.useAbstractName(a.name, a.sig)
+							parts = append(parts, a.name)
 						}
 						parts = append(parts, c.expr(x.X))
 						return "(" + strings.Join(parts, " ") + ")"
@@ -687,7 +726,11 @@ func (c *fctx) binary(at ast.Node, X ast.Expr, op token.Token, Y ast.Expr, opT t
 	switch op {
 	case token.LAND, token.LOR:
 		if c.partial(Y) {
-			c.fail(at, "right operand of %s can fault (evaluation order would change)", op)
+			// the right operand is evaluated (and can fault) only when the left one does not decide
+			if op == token.LAND {
+				return "(← (if " + c.expr(X) + " then (do pure " + c.expr(Y) + ") else pure false))"
+			}
+			return "(← (if " + c.expr(X) + " then pure true else (do pure " + c.expr(Y) + ")))"
 		}
 		o := "&&"
 		if op == token.LOR {
@@ -783,7 +826,14 @@ func (c *fctx) call(x *ast.CallExpr) string {
 	case *types.Builtin:
 		switch o.Name() {
 		case "len":
+			if _, isSlice := c.typeOf(x.Args[0]).Underlying().(*types.Slice); isSlice {
+				if v, ok := c.viewOf(x.Args[0]); ok {
+					return v.length()
+				}
+			}
 			return "(Go.len " + c.expr(x.Args[0]) + ")"
+		case "copy":
+			return c.copyCall(x)
 		case "append":
 			base := c.expr(x.Args[0])
 			if x.Ellipsis.IsValid() {
@@ -797,6 +847,10 @@ func (c *fctx) call(x *ast.CallExpr) string {
 		case "make":
 			t := c.typeOf(x)
 			sl, ok := t.Underlying().(*types.Slice)
+			if ok && len(x.Args) == 3 {
+				// make([]T, n, cap): the capacity does not show in a value
+				return "(← Go.makeList " + c.zero(x, sl.Elem()) + " " + c.asInt(x.Args[1]) + ")"
+			}
 			if !ok || len(x.Args) != 2 {
 				c.fail(x, "make of %s", t)
 			}
@@ -841,6 +895,15 @@ func (c *fctx) call(x *ast.CallExpr) string {
 					}
 				}
 				return fmt.Sprintf("(some (Go.Err.mk %q %d [%s]))", c.fi.Qual(), k, strings.Join(ints, ", "))
+			}
+			// cipher.AEAD.Overhead(): abstract
+			if sel, ok := ast.Unparen(x.Fun).(*ast.SelectorExpr); ok {
+				if sn := c.info().Selections[sel]; sn != nil && sn.Kind() == types.MethodVal && o.Name() == "Overhead" {
+					if lt, _ := leanTypeOf(sn.Recv()); lt == "α" {
+						c.useAbstractName("aead_Overhead", "(aead_Overhead : α → Go.M Int)")
+						return "(← aead_Overhead " + c.expr(sel.X) + ")"
+					}
+				}
 			}
 			// method of strings.Builder
 			if sel, ok := ast.Unparen(x.Fun).(*ast.SelectorExpr); ok {
@@ -907,8 +970,8 @@ func (c *fctx) call(x *ast.CallExpr) string {
 				name := c.t.translate(fi, c, x)
 				var parts []string
 				for _, a := range c.t.absOf[o] {
-					c.useAbstract(a)
-					parts = append(parts, absName(a))
+					c.useAbstractName(a.name, a.sig)
+					parts = append(parts, a.name)
 				}
 				if fi.Decl.Recv != nil {
 					sel, ok := ast.Unparen(x.Fun).(*ast.SelectorExpr)
@@ -920,7 +983,11 @@ func (c *fctx) call(x *ast.CallExpr) string {
 				psig := o.Type().(*types.Signature).Params()
 				for i, a := range x.Args {
 					if u, ok := ast.Unparen(a).(*ast.UnaryExpr); ok && u.Op == token.AND {
-						c.fail(x, "call passing an address")
+						if c.t.arrInout[o] {
+							c.fail(x, "call passing an address to a function that changes the array, in an expression")
+						}
+						parts = append(parts, c.expr(u.X))
+						continue
 					}
 					var want types.Type
 					if i < psig.Len() {
@@ -981,12 +1048,16 @@ func (c *fctx) isAbstract(o *types.Func) bool {
 func absName(o *types.Func) string { return leanIdent(o.Pkg().Name()) + "_" + o.Name() }
 
 func (c *fctx) useAbstract(o *types.Func) {
+	c.useAbstractName(absName(o), c.abstractSig(c.fi.Decl, o))
+}
+
+func (c *fctx) useAbstractName(name, sig string) {
 	for _, a := range c.abstractUsed {
-		if a == o {
+		if a.name == name {
 			return
 		}
 	}
-	c.abstractUsed = append(c.abstractUsed, o)
+	c.abstractUsed = append(c.abstractUsed, absParam{name, sig})
 }
 
 // abstractSig renders the parameter that stands for an abstract callee
@@ -1002,58 +1073,26 @@ func (c *fctx) abstractSig(at ast.Node, o *types.Func) string {
 	return fmt.Sprintf("(%s : %s → Go.M %s)", absName(o), strings.Join(ps, " → "), tupleType(rs))
 }
 
-// abstractsIn: abstract callees called inside n, in source order
-func (c *fctx) abstractsIn(n ast.Node) []*types.Func {
-	var out []*types.Func
-	ast.Inspect(n, func(n ast.Node) bool {
-		add := func(f *types.Func) {
-			for _, g := range out {
-				if g == f {
-					return
-				}
-			}
-			out = append(out, f)
-		}
-		var callee *types.Func
-		switch x := n.(type) {
-		case *ast.CallExpr:
-			callee, _ = c.fi.Pkg.callee(x).(*types.Func)
-		case *ast.SelectorExpr:
-			if sel := c.info().Selections[x]; sel != nil && sel.Kind() == types.MethodVal {
-				callee, _ = sel.Obj().(*types.Func)
-			}
-		}
-		if callee != nil {
-			if c.isAbstract(callee) {
-				add(callee)
-			} else if fi := c.t.pr.Funcs[callee]; fi != nil && callee != c.fi.Obj && c.t.translatable(fi) {
-				c.t.translate(fi, c, n)
-				for _, a := range c.t.absOf[callee] {
-					add(a)
-				}
-			}
-		}
-		return true
-	})
-	return out
-}
-
 // translatable: a module function that is listed (or already translated); only those are translated on demand
 func (t *ftr) translatable(fi *FuncInfo) bool { return t.specs[fi.Obj] != nil || t.done[fi.Obj] }
 
-func (c *fctx) tyBinders() string {
+func (c *fctx) tyBinders(sigText ...string) string {
 	if c.spec == nil || len(c.spec.opaque) == 0 {
 		return ""
 	}
+	text := strings.Join(sigText, " ")
 	seen := map[string]bool{}
 	var vs []string
 	for _, v := range c.spec.opaque {
-		if !seen[v] {
+		if !seen[v] && !strings.Contains(v, ".") && (len(sigText) == 0 || strings.Contains(text, v)) {
 			seen[v] = true
 			vs = append(vs, v)
 		}
 	}
 	sort.Strings(vs)
+	if len(vs) == 0 {
+		return ""
+	}
 	return "{" + strings.Join(vs, " ") + " : Type} "
 }
 
@@ -1139,7 +1178,7 @@ func (t *ftr) global(c *fctx, at ast.Node, v *types.Var) string {
 		}
 	}
 	// the initialiser is translated in a throw-away context: it must be pure
-	gc := &fctx{t: t, fi: c.fi, names: map[types.Object]string{}, used: map[string]bool{}}
+	gc := &fctx{t: t, fi: c.fi, names: map[types.Object]string{}, used: map[string]bool{}, localViews: map[*types.Var]*view{}}
 	if gc.partial(init) {
 		c.fail(init, "initialiser of %s can fault", v.Name())
 	}
@@ -1167,17 +1206,38 @@ func (t *ftr) structType(nt *types.Named) (string, bool) {
 	name := leanIdent(nt.Obj().Pkg().Name()) + "_" + nt.Obj().Name()
 	t.structs[nt] = "" // guards against recursive types
 	var fields []string
+	var tyVars []string
 	for i := 0; i < st.NumFields(); i++ {
 		f := st.Field(i)
+		if _, isView := viewFields[fieldKey(nt, f.Name())]; isView {
+			// a window into an array field of this struct: its two indices (funcs_views.go)
+			fields = append(fields, fmt.Sprintf("  %s_lo : Int\n  %s_hi : Int", f.Name(), f.Name()))
+			continue
+		}
 		ft, ok := leanTypeOf(f.Type())
 		if !ok {
+			delete(t.structs, nt)
 			return "", false
+		}
+		if len([]rune(ft)) == 1 { // a type variable
+			dup := false
+			for _, v := range tyVars {
+				dup = dup || v == ft
+			}
+			if !dup {
+				tyVars = append(tyVars, ft)
+			}
 		}
 		fields = append(fields, fmt.Sprintf("  %s : %s", fieldName(f.Name()), ft))
 	}
-	t.structs[nt] = name
-	fmt.Fprintf(&t.out, "/-- `type %s struct` of %s (read-only in translated code) -/\nstructure %s where\n%s\n\n", nt.Obj().Name(), nt.Obj().Pkg().Path(), name, strings.Join(fields, "\n"))
-	return name, true
+	decl, use := name, name
+	if len(tyVars) > 0 {
+		decl = name + " (" + strings.Join(tyVars, " ") + " : Type)"
+		use = "(" + name + " " + strings.Join(tyVars, " ") + ")"
+	}
+	t.structs[nt] = use
+	fmt.Fprintf(&t.out, "/-- `type %s struct` of %s -/\nstructure %s where\n%s\n\n", nt.Obj().Name(), nt.Obj().Pkg().Path(), decl, strings.Join(fields, "\n"))
+	return use, true
 }
 
 func fieldName(n string) string {
@@ -1292,8 +1352,33 @@ func (c *fctx) assignedIn(n ast.Node) map[*types.Var]bool {
 					}
 				}
 			}
+			if b, ok := c.fi.Pkg.callee(s).(*types.Builtin); ok && b.Name() == "copy" && len(s.Args) == 2 {
+				if id, ok := ast.Unparen(s.Args[0]).(*ast.Ident); ok {
+					if v, ok := c.info().Uses[id].(*types.Var); ok {
+						m[v] = true
+					}
+				}
+			}
 		case *ast.DeferStmt:
 			// the deferred closure's assignments happen in this function
+		}
+		return true
+	})
+	return m
+}
+
+// copyDests: slice parameters whose ELEMENTS the function writes (copy destinations): the caller sees that
+func (c *fctx) copyDests() map[*types.Var]bool {
+	m := map[*types.Var]bool{}
+	ast.Inspect(c.fi.Decl.Body, func(n ast.Node) bool {
+		if call, ok := n.(*ast.CallExpr); ok {
+			if b, ok := c.fi.Pkg.callee(call).(*types.Builtin); ok && b.Name() == "copy" && len(call.Args) == 2 {
+				if id, ok := ast.Unparen(call.Args[0]).(*ast.Ident); ok {
+					if v, ok := c.info().Uses[id].(*types.Var); ok {
+						m[v] = true
+					}
+				}
+			}
 		}
 		return true
 	})
@@ -1532,7 +1617,10 @@ func (c *fctx) block(e *emitter, ind int, list []ast.Stmt) {
 }
 
 func (c *fctx) stmt(e *emitter, ind int, s ast.Stmt) {
+	c.curE, c.curInd = e, ind
 	switch st := s.(type) {
+	case *ast.SwitchStmt:
+		c.switchStmt(e, ind, st)
 	case *ast.BlockStmt:
 		for _, x := range st.List {
 			c.stmt(e, ind, x)
@@ -1576,6 +1664,9 @@ func (c *fctx) stmt(e *emitter, ind int, s ast.Stmt) {
 		call, ok := st.X.(*ast.CallExpr)
 		if !ok {
 			c.fail(s, "expression statement")
+		}
+		if c.addrArgCall(e, ind, call) {
+			return
 		}
 		if b, ok := c.fi.Pkg.callee(call).(*types.Builtin); ok && b.Name() == "panic" {
 			k := c.panicN
@@ -1730,7 +1821,36 @@ func (c *fctx) stmt(e *emitter, ind int, s ast.Stmt) {
 }
 
 func (c *fctx) assign(e *emitter, ind int, st *ast.AssignStmt) {
+	if c.assignSpecial(e, ind, st) {
+		return
+	}
 	define := st.Tok == token.DEFINE
+	// a call of a translated method that hands its receiver back: results, then the receiver's new value
+	if call, ok := ast.Unparen(st.Rhs[0]).(*ast.CallExpr); ok && len(st.Rhs) == 1 && (st.Tok == token.ASSIGN || st.Tok == token.DEFINE) {
+		if sel, ok := ast.Unparen(call.Fun).(*ast.SelectorExpr); ok {
+			if m, ok := c.fi.Pkg.callee(call).(*types.Func); ok {
+				if fi := c.t.pr.Funcs[m]; fi != nil && fi.Decl.Recv != nil && c.t.translatable(fi) {
+					c.t.translate(fi, c, call)
+					if c.t.recvInout[m] {
+						c.syncAlias(e, ind, sel.X, true)
+						t := c.tmp()
+						e.add(ind, "let "+t+" := "+c.expr(call))
+						// the receiver's new value first (a left-hand side may be one of its fields), then the results
+						recvProj := t + strings.Repeat(".2", len(st.Lhs))
+						c.assignTo(e, ind, sel.X, recvProj, false)
+						c.syncAlias(e, ind, sel.X, false)
+						proj := t
+						for _, l := range st.Lhs {
+							c.assignTo(e, ind, l, proj+".1", define)
+							proj += ".2"
+						}
+						return
+					}
+				}
+			}
+		}
+	}
+
 	if st.Tok != token.ASSIGN && st.Tok != token.DEFINE {
 		// op=
 		if len(st.Lhs) != 1 {
@@ -1763,30 +1883,6 @@ func (c *fctx) assign(e *emitter, ind int, st *ast.AssignStmt) {
 	}
 	if len(st.Rhs) != 1 {
 		c.fail(st, "assignment shape")
-	}
-	// a call of a translated method that hands its receiver back: results, then the receiver's new value
-	if call, ok := ast.Unparen(st.Rhs[0]).(*ast.CallExpr); ok {
-		if sel, ok := ast.Unparen(call.Fun).(*ast.SelectorExpr); ok {
-			if m, ok := c.fi.Pkg.callee(call).(*types.Func); ok {
-				if fi := c.t.pr.Funcs[m]; fi != nil && fi.Decl.Recv != nil && c.t.translatable(fi) {
-					c.t.translate(fi, c, call)
-					if c.t.recvInout[m] {
-						c.syncAlias(e, ind, sel.X, true)
-						t := c.tmp()
-						e.add(ind, "let "+t+" := "+c.expr(call))
-						proj := t
-						for i, l := range st.Lhs {
-							_ = i
-							c.assignTo(e, ind, l, proj+".1", define)
-							proj += ".2"
-						}
-						c.assignTo(e, ind, sel.X, proj, false)
-						c.syncAlias(e, ind, sel.X, false)
-						return
-					}
-				}
-			}
-		}
 	}
 	// a read from a *bufio.Reader: the value(s) and the reader's new state
 	if call, ok := ast.Unparen(st.Rhs[0]).(*ast.CallExpr); ok && len(st.Lhs) == 2 {
@@ -2078,11 +2174,10 @@ func (c *fctx) loop(e *emitter, ind int, s ast.Stmt) {
 	sort.Slice(muts, func(i, j int) bool { return muts[i].Pos() < muts[j].Pos() })
 
 	var sig, roArgs, mutNames, mutTys, mutPats []string
-	for _, f := range c.abstractsIn(s) {
-		c.useAbstract(f)
-		sig = append(sig, c.abstractSig(s, f))
-		roArgs = append(roArgs, absName(f))
-	}
+	// every loop of a function takes all of the function's abstract parameters: the list is only complete when
+	// the function has been translated, so markers stand for it until then
+	sig = append(sig, absSigMark+name+"⟧")
+	roArgs = append(roArgs, absArgMark+name+"⟧")
 	for _, v := range ro {
 		sig = append(sig, fmt.Sprintf("(%s : %s)", c.nameOf(v), c.leanType(s, v.Type())))
 		roArgs = append(roArgs, c.nameOf(v))
@@ -2144,7 +2239,7 @@ func (c *fctx) loop(e *emitter, ind int, s ast.Stmt) {
 
 	var d strings.Builder
 	fmt.Fprintf(&d, "/-- loop %d of %s (line %d): `%s` -/\n", k, c.fi.Qual(), c.t.pr.line(s.Pos()), loopHead(c, s))
-	fmt.Fprintf(&d, "def %s %s%s : %s → Go.M (Go.Loop %s %s)\n", name, c.tyBinders(), strings.Join(sig, " "), strings.Join(argTys, " → "), sigma, c.retTy)
+	fmt.Fprintf(&d, "def %s ⟦TYB⟧%s : %s → Go.M (Go.Loop %s %s)\n", name, strings.Join(sig, " "), strings.Join(argTys, " → "), sigma, c.retTy)
 	pats := func(first string) string {
 		ps := []string{first}
 		if extraParamTy != "" {
@@ -2260,7 +2355,7 @@ func (t *ftr) translate(fi *FuncInfo, from *fctx, at ast.Node) string {
 		curOpaque = spec.opaque
 	}
 	defer func() { curOpaque = savedOpaque }()
-	c := &fctx{t: t, fi: fi, spec: spec, base: name, names: map[types.Object]string{}, used: map[string]bool{}}
+	c := &fctx{t: t, fi: fi, spec: spec, base: name, names: map[types.Object]string{}, used: map[string]bool{}, localViews: map[*types.Var]*view{}}
 	sig := fi.Obj.Type().(*types.Signature)
 	if sig.Variadic() {
 		c.fail(fi.Decl, "variadic function")
@@ -2279,8 +2374,23 @@ func (t *ftr) translate(fi *FuncInfo, from *fctx, at ast.Node) string {
 			shadow = append(shadow, fmt.Sprintf("let mut %s := %s", c.nameOf(rv), c.nameOf(rv)))
 		}
 	}
+	cd := c.copyDests()
 	for i := 0; i < sig.Params().Len(); i++ {
 		p := sig.Params().At(i)
+		if _, isSlice := p.Type().Underlying().(*types.Slice); isSlice && cd[p] {
+			// the function fills the caller's buffer: it is handed back. (It must not also be re-sliced.)
+			ast.Inspect(fi.Decl.Body, func(n ast.Node) bool {
+				if as, ok := n.(*ast.AssignStmt); ok {
+					for _, l := range as.Lhs {
+						if id, ok := l.(*ast.Ident); ok && c.info().Uses[id] == p {
+							c.fail(as, "a buffer parameter that is filled is also re-assigned")
+						}
+					}
+				}
+				return true
+			})
+			c.inouts = append(c.inouts, p)
+		}
 		if ptr, ok := p.Type().Underlying().(*types.Pointer); ok {
 			_, isArr := ptr.Elem().Underlying().(*types.Array)
 			_, isStruct := ptr.Elem().Underlying().(*types.Struct)
@@ -2329,26 +2439,101 @@ func (t *ftr) translate(fi *FuncInfo, from *fctx, at ast.Node) string {
 			e.add(1, "throw Go.Fault.fuel")
 		}
 	}
-	for _, l := range c.loops {
-		t.out.WriteString(l)
-	}
-	fmt.Fprintf(&t.out, "/-- %s (%s:%d)", fi.Qual(), fi.File, t.pr.line(fi.Decl.Pos()))
+	// (the loops are written below, once the abstract parameters are all known)
+	var doc strings.Builder
+	fmt.Fprintf(&doc, "/-- %s (%s:%d)", fi.Qual(), fi.File, t.pr.line(fi.Decl.Pos()))
 	for _, s := range c.sites {
-		fmt.Fprintf(&t.out, "\n    %s", s)
+		fmt.Fprintf(&doc, "\n    %s", s)
 	}
-	var absParams []string
-	for _, f := range c.abstractUsed {
-		absParams = append(absParams, c.abstractSig(fi.Decl, f))
+	var absParams, absArgs []string
+	for _, a := range c.abstractUsed {
+		absParams = append(absParams, a.sig)
+		absArgs = append(absArgs, a.name)
 	}
 	params = append(absParams, params...)
-	fmt.Fprintf(&t.out, " -/\ndef %s %s%s : Go.M %s := do\n%s\n\n", name, c.tyBinders(), strings.Join(params, " "), c.retTy, strings.Join(e.lines, "\n"))
+	// each loop takes the abstract parameters it mentions, plus those of the loops it calls
+	loopName := func(text string) string {
+		i := strings.Index(text, absSigMark)
+		if i < 0 {
+			return ""
+		}
+		j := strings.Index(text[i:], "⟧")
+		return text[i+len(absSigMark) : i+j]
+	}
+	needs := map[string]map[string]bool{}
+	for _, l := range c.loops {
+		n := loopName(l)
+		needs[n] = map[string]bool{}
+		body := l[strings.Index(l, "\n"):] // skip the doc comment line? (names in comments do no harm)
+		for _, a := range c.abstractUsed {
+			if regexp.MustCompile(`(^|[^A-Za-z0-9_])` + regexp.QuoteMeta(a.name) + `([^A-Za-z0-9_]|$)`).MatchString(body) {
+				needs[n][a.name] = true
+			}
+		}
+	}
+	for changed := true; changed; {
+		changed = false
+		for _, l := range c.loops {
+			n := loopName(l)
+			for m := range needs {
+				if m != n && strings.Contains(l, absArgMark+m+"⟧") {
+					for a := range needs[m] {
+						if !needs[n][a] {
+							needs[n][a] = true
+							changed = true
+						}
+					}
+				}
+			}
+		}
+	}
+	subst := func(x string) string {
+		for n, set := range needs {
+			var sigs, args []string
+			for _, a := range c.abstractUsed {
+				if set[a.name] {
+					sigs = append(sigs, a.sig)
+					args = append(args, a.name)
+				}
+			}
+			sp := ""
+			if len(sigs) > 0 {
+				sp = " "
+			}
+			x = strings.ReplaceAll(x, absSigMark+n+"⟧ ", strings.Join(sigs, " ")+sp)
+			x = strings.ReplaceAll(x, absSigMark+n+"⟧", strings.Join(sigs, " "))
+			x = strings.ReplaceAll(x, " "+absArgMark+n+"⟧", sp+strings.Join(args, " "))
+			x = strings.ReplaceAll(x, absArgMark+n+"⟧", strings.Join(args, " "))
+		}
+		return x
+	}
+	for i := range e.lines {
+		e.lines[i] = subst(e.lines[i])
+	}
+	var loopText strings.Builder
+	for _, l := range c.loops {
+		l = subst(l)
+		// the type binders of a loop: the type variables its (now complete) signature line mentions
+		if i := strings.Index(l, "⟦TYB⟧"); i >= 0 {
+			j := i + strings.Index(l[i:], "\n")
+			l = l[:i] + c.tyBinders(l[i:j]) + l[i+len("⟦TYB⟧"):]
+		}
+		loopText.WriteString(l)
+	}
+	t.out.WriteString(loopText.String())
+	t.out.WriteString(doc.String())
+	fmt.Fprintf(&t.out, " -/\ndef %s %s%s : Go.M %s := do\n%s\n\n", name, c.tyBinders(strings.Join(params, " ")+" "+c.retTy), strings.Join(params, " "), c.retTy, strings.Join(e.lines, "\n"))
 	fmt.Fprintf(&t.out, "def %s_errSites : Nat := %d\ndef %s_panicSites : Nat := %d\n\n", name, c.errN, name, c.panicN)
 	t.absOf[fi.Obj] = c.abstractUsed
-	if rv := sig.Recv(); rv != nil && c.isInout(rv) {
-		if len(c.inouts) != 1 {
-			c.fail(fi.Decl, "a method with an assigned receiver and other in-out parameters")
+	for _, io := range c.inouts {
+		if ptr, ok := io.Type().Underlying().(*types.Pointer); ok {
+			if _, isArr := ptr.Elem().Underlying().(*types.Array); isArr && len(c.inouts) == 1 && sig.Results().Len() == 0 {
+				t.arrInout[fi.Obj] = true
+			}
 		}
-		t.recvInout[fi.Obj] = true
+	}
+	if rv := sig.Recv(); rv != nil && c.isInout(rv) && len(c.inouts) == 1 {
+		t.recvInout[fi.Obj] = true // (with further in-out parameters the method can be translated but not called from translated code)
 	}
 	t.done[fi.Obj] = true
 	delete(t.busy, fi.Obj)
@@ -2370,7 +2555,7 @@ func recvTypeNameOf(fi *FuncInfo) string {
 func collectFuncs(pr *Prog, facts map[string]interface{}) *leanFile {
 	f := newLean("Funcs", "Selected small pure functions of the repository, TRANSLATED statement by statement (extract/funcs.go); semantics: AgeModel/GoSem.lean.")
 	t := &ftr{pr: pr, specs: map[*types.Func]*funcSpec{}, done: map[*types.Func]bool{}, busy: map[*types.Func]bool{}, globs: map[types.Object]string{},
-		absOf: map[*types.Func][]*types.Func{}, structs: map[*types.Named]string{}, recvInout: map[*types.Func]bool{}}
+		absOf: map[*types.Func][]absParam{}, arrInout: map[*types.Func]bool{}, structs: map[*types.Named]string{}, recvInout: map[*types.Func]bool{}}
 	curFtr = t
 	var failed []string
 	for i := range funcSpecs {
